@@ -1,6 +1,6 @@
 """C03 (restat-pruning and frame clauses, modular): Plan::CleanNode and the frame of Plan::EdgeFinished (props/planunit.py)."""
 from engine.selftest import subst
-from props import planjobs, builderjobs
+from props import planjobs, builderjobs, outdirtyjobs
 
 ID = "C03"
 USES_CPP = True
@@ -13,6 +13,7 @@ MANIFEST = {
                 "outputs are up to date against the newest such input; then - and only then - its outputs are cleaned in turn; a dirty order-only input alone never keeps it; "
                 "(2) frame of Plan::EdgeFinished: finishing a command never clears a dirty flag (a sibling input rebuilt earlier in the same build keeps its dependents wanted). "
                 "(3) Builder::FinishCommand (real text, callees by contract) calls CleanNode exactly for the outputs a successful restat command left with the mtime they had before, never after a failure. "
+                "(4) RecomputeOutputsDirtyCache (real text): the per-statement rule, including 'changing only the command line of a generator rule does not re-run it' and restat statements being judged by the recorded mtime. "
                 "NOT decided: which edges the initial scan marks dirty (RecomputeNodeDirty, C++17), the generator-rule exception, 'exactly the affected commands' as a whole-build statement.",
         "design_ref": "DESIGN.md 5 C03",
     },
@@ -24,7 +25,7 @@ KEYS = ["M6", "M3"]
 
 
 def jobs(tier, mutant=None):
-    return planjobs.select(tier, KEYS, r'\bC03\b', mutant) + builderjobs.select(tier, ["B2"], r'\bC03\b', mutant)
+    return planjobs.select(tier, KEYS, r'\bC03\b', mutant) + builderjobs.select(tier, ["B2"], r'\bC03\b', mutant) + outdirtyjobs.select(tier, ["O1"], r'\bC03\b', mutant)
 
 
 def _m(target, old, new):
@@ -40,6 +41,7 @@ MUTANTS = [
     ("oldest_input_compared", _m("CleanNode", "(*i)->mtime() > most_recent_input->mtime()", "(*i)->mtime() < most_recent_input->mtime()")),
     ("every_restat_output_cleaned", _m("FinishCommand", "if ((*o)->mtime() == new_mtime && restat) {", "if (restat) {")),
     ("non_restat_outputs_cleaned", _m("FinishCommand", "if ((*o)->mtime() == new_mtime && restat) {", "if ((*o)->mtime() == new_mtime) {")),
+    ("generator_command_change_rebuilds", _m("RecomputeOutputDirty", "IF_FIRSTRUN (!generator_ && commandHash_() != entry->command_hash) {", "IF_FIRSTRUN (commandHash_() != entry->command_hash) {")),
     ("deps_missing_ignored", _m("CleanNode", "    if ((*oe)->deps_missing_)\n      continue;\n", "")),
 ]
 
@@ -55,7 +57,7 @@ def describe(tier):
     return {
         "functions": ["build.cc:Plan::CleanNode", "build.cc:Plan::EdgeFinished (frame)", "build.h:struct Plan", "build.cc:Builder::FinishCommand (restat clause)"],
         "checker_cmd": "goto-cc -std=c++11 unit.cc (slices + stubs + harness); cbmc a.gb --unwind N --unwinding-assertions + checks",
-        "trusted_base": planjobs.PLAN_TRUST + builderjobs.TRUST,
+        "trusted_base": planjobs.PLAN_TRUST + builderjobs.TRUST + outdirtyjobs.TRUST,
         "bounds": {t: "a node with 2 consumers; the planned consumer has 3 inputs (0-2 order-only) and 2 outputs; all flags, mtimes and the scan verdict symbolic" for t in ("quick", "thorough")},
         "assumptions": planjobs.PLAN_ASSUME + ["DependencyScan::RecomputeOutputsDirty is a contract stub (its verdict is symbolic); Builder::FinishCommand calls CleanNode exactly for restat outputs whose mtime did not change: by inspection"],
         "silent": ["initial dirty computation (order-only change alone, command-line change, generator exception)", "exactly the affected commands run, as a whole-build statement"],
